@@ -36,8 +36,13 @@
   (=> (promises.present a) (and (promises.present b) (p.creation.eq a b))))
 (define-fun rely.promises.writeonce ((a Row.promises) (b Row.promises)) Bool (=> (p.completed a) (= b a)))
 (define-fun rely.promises.rowinv ((a Row.promises) (b Row.promises)) Bool (=> (promises.present b) (rowinv.promises b)))
+; C04: a promise tagged to resolve on timeout never becomes timed-out (it resolves instead); whoever times it
+; out -- lazy reader or sweep -- must honour the tag
+(define-fun rely.promises.timeouttag ((a Row.promises) (b Row.promises)) Bool
+  (=> (and (promises.present a) (= (promises.state a) (isome 1)) (= (promises.state b) (isome 16)))
+      (not (= (select (hdrs (promises.tags a)) lit.resonate_timeout) (some lit.true)))))
 (define-fun rely.promises ((a Row.promises) (b Row.promises)) Bool
-  (and (rely.promises.stays a b) (rely.promises.writeonce a b) (rely.promises.rowinv a b)))
+  (and (rely.promises.stays a b) (rely.promises.writeonce a b) (rely.promises.rowinv a b) (rely.promises.timeouttag a b)))
 
 ; ---- callbacks (C05): a registration is written once and only ever removed
 (define-fun rowinv.callbacks ((r Row.callbacks)) Bool
